@@ -174,7 +174,10 @@ ExpectedRes(e) ==
 Drifts(e) ==
     IF e.ev \in {"Reset", "Law"} \/ ~WellFormed(e) THEN {}
     ELSE (IF e.ev # "Read" /\ e.res \notin Names(ExpectedRes(e)) THEN {"result"} ELSE {})
-    \cup (IF e.ev # "Read" /\ e.exp \in DOMAIN Name /\ Name[e.exp] # e.res THEN {"scenario"} ELSE {})
+    \* the result the model gave in the TLC scenario (only where the model allows a single result: which of
+    \* several offending operations verify() meets first is left open by the model)
+    \cup (IF e.ev # "Read" /\ e.exp \in DOMAIN Name /\ Cardinality(ExpectedRes(e)) = 1 /\ Name[e.exp] # e.res
+          THEN {"scenario"} ELSE {})
     \cup (IF StateChanging(e) /\ OpSet(e.obs) # ExpectedOs(e) THEN {"ops"} ELSE {})
     \cup (IF StateChanging(e) /\ ( \/ S(e.obs.read) # R!ReadVal(g.P, g.B[e.r], S(e.obs.ops))
                                    \/ e.obs.nfr # e.obs.nf
